@@ -83,9 +83,34 @@ impl SpiDevice<u8> for MockSpi {
     }
 }
 
+pub(crate) static mut RESETS: u32 = 0;
+pub(crate) static mut RESET_AT_N: usize = 0;
+/// uninterpreted-function contract-stub support: a conversion replaced by its contract must still be a FUNCTION (same argument,
+/// same result) when a harness calls it more than once
+pub(crate) static mut UF: [(bool, u32, u32); 3] = [(false, 0, 0); 3];
+pub(crate) fn uf_apply(arg: u32) -> u32 {
+    unsafe {
+        let mut i = 0;
+        while i < 3 { if UF[i].0 && UF[i].1 == arg { return UF[i].2; } i += 1; }
+        let ret = u32::from_le_bytes(tape::stub_arr::<4>());
+        let mut i = 0;
+        while i < 3 { if !UF[i].0 { UF[i] = (true, arg, ret); return ret; } i += 1; }
+        assert!(false, "verif-machinery: uninterpreted-function table full");
+        ret
+    }
+}
 pub(crate) struct MockIv;
 impl InterfaceVariant for MockIv {
-    fn reset(&mut self, _delay: &mut impl embedded_hal::delay::DelayNs) -> Result<(), RadioError> { Ok(()) }
+    /// hardware reset.  Register-file contract (when on): every configuration register returns to its power-on value -- modelled
+    /// as one arbitrary byte for all of them, except RegFrf = 0x6C8000 (434 MHz) and RegOpMode = FSK standby -- so nothing the
+    /// driver programmed before survives.  RESETS counts them; RESET_AT_N is the SPI write-log position of the last one.
+    fn reset(&mut self, _delay: &mut impl embedded_hal::delay::DelayNs) -> Result<(), RadioError> {
+        unsafe {
+            RESETS += 1; RESET_AT_N = SPI.n;
+            if REGS.on { let v = tape::stub_u8(); let mut i = 0; while i < 128 { REGS.r[i] = v; i += 1; } REGS.r[0x06] = 0x6C; REGS.r[0x07] = 0x80; REGS.r[0x08] = 0x00; REGS.r[0x01] = 0x09; }
+        }
+        Ok(())
+    }
     fn wait_on_busy(&mut self) -> Result<(), RadioError> { Ok(()) }
     fn await_irq(&mut self) -> Result<(), RadioError> { Ok(()) }
     fn enable_rf_switch_rx(&mut self) -> Result<(), RadioError> { Ok(()) }
